@@ -195,11 +195,11 @@ def _intersect3d(ray1, ray2, tol):
     # Check for skew case: the distance between the lines of the rays is |p_diff . (d1 x d2)| / |d1 x d2|. Unlike the
     # distance between the points evaluated at t1 and t2, it does not suffer from the round-off error of the parameters
     # of the rays which are almost parallel. The tolerance is relative to the magnitude of the points which define the
-    # rays (the directions carry the round-off error of the second points) and to 1 / sin(angle between the rays): the
-    # round-off error of d1 x d2 is relative to |d1| |d2|, not to |d1 x d2|.
+    # rays (the directions carry the round-off error of the second points); the round-off error of d1 x d2 is relative
+    # to |d1| |d2|, not to |d1 x d2|, so a few units of round-off are allowed per 1 / sin(angle between the rays) on top.
     line_dist = abs(linalg.vector_dot(p_diff, d_cross)) / d_magn
     pt_scale = max(linalg.vector_magnitude(pt) for pt in ray1.points + ray2.points)
-    if line_dist <= tol * pt_scale * (d_scale / d_magn):
+    if line_dist <= pt_scale * (tol + 4.0 * sys.float_info.epsilon * (d_scale / d_magn)):
         return t1, t2, RayIntersection.INTERSECT
     else:
         return t1, t2, RayIntersection.SKEW
